@@ -40,6 +40,23 @@ def run(ctx):
     # implementation directly, on the elements and energies of the C trace plus Java's own edge energies, bit-exact and one ulp to either
     # side.  Where C conforms to the module and Java does not, the two differ - also exactly at an edge, where the pairwise rule above
     # must allow for round-off.
+    # ... and likewise the cascade module (XrlXRFKissel, C08) in data configuration B (b, exe and jdir still belong to B here)
+    factsB = ctx.facts(b, ["macros", "names", "scalar", "compton", "kissel"], sub="factsB")
+    kzs = [26, 47, 82, 92] if ctx.quick else list(range(11, 99, 3))
+    def kxrf(i):
+        zz = kzs[i::NCPU]
+        if not zz: return None
+        ctrace = os.path.join(ctx.scratch, "kxc.%02d.ndjson" % i); jtrace = os.path.join(ctx.scratch, "kxj.%02d.ndjson" % i)
+        with open(ctrace, "w") as f: pass
+        for Z in zz:
+            tmp = ctrace + ".z"; ctx.run_harness(exe, ["c08", Z, Z, "quick"], tmp)
+            with open(ctrace, "a") as f: f.write(open(tmp).read())
+        r2 = subprocess.run(["java", "-Xmx1g", "-XX:ParallelGCThreads=2", "-cp", os.path.join(jdir, "classes"), "JKxrf", ctrace, jtrace], cwd=os.path.join(jdir, "classes"), capture_output=True, text=True, timeout=3000)
+        if r2.returncode != 0: raise Broken("JKxrf ended abnormally: " + (r2.stderr or "")[-600:])
+        return jtrace
+    with cf.ThreadPoolExecutor(max_workers=NCPU) as ex: kt = [t for t in ex.map(kxrf, range(NCPU)) if t]
+    ctx.tlc_traces("Trace_C08", kt, env={"XRL_FACTS": factsB, "XRL_PROP": "C19", "XRL_IMPL": "java"}, heap="4g")
+    ctx.samples.append({"second_binding": "XrlXRFKissel judged the Java implementation on %d elements (configuration B)" % len(kzs)})
     b = ctx.build("plain", "A"); exe = ctx.harness(b)
     facts = ctx.facts(b, ["macros", "names", "scalar", "compton", "kissel"])
     zs = [6, 20, 26, 29, 40, 47, 64, 79, 82, 92] if ctx.quick else list(range(1, 99))
